@@ -253,7 +253,7 @@ func queueGen(r *Rng, i int) *Sx {
 				}
 			}
 		case x < 97:
-			d := uint64(Pick(r, []int{1000, 2 * 3600000, 2 * 3600000, 600000}))
+			d := uint64(Pick(r, []int{1000, 2 * 3600000, 2 * 3600000, 601000})) // never a sum that equals the 1 800 000 ms in-flight expiry or a message lifetime exactly (the queue reads the real clock)
 			now += d
 			ops = append(ops, L(A("shift"), U(d)))
 		default:
